@@ -112,6 +112,7 @@ class HubConfig:
         self.probes, self.sizes, self.pairs, self.nonwritable = probes, sizes, pairs, nonwritable
         self.max_states, self.fin_grace, self.props = max_states, fin_grace, tuple(props)
         self.alpha = Alphabet(tc, ids)
+        self.post = None  # optional hook(cfg, info_before, label, env_after) -> list of problems
 
 
 _CFG: Dict[str, HubConfig] = {}
@@ -209,7 +210,8 @@ def expand(args) -> Dict[str, Any]:
             # the history itself already violates the property (reported by the parent); do not expand
             return {"children": [], "problems": [], "stats": stats}
         info = {"live": _live(env), "present": [s for s, c in env.w.clients.items() if not c.gone],
-                "spec": env.s}
+                "spec": env.s, "idents": [(c.slot, c.mod_id, c.unique, c.name, c.connected) for c in env.s.conns],
+                "dyn": env.s.dyn, "nhist": len(hist)}
         ops = cfg.ops(cfg, info)
         if cfg.probes:
             before = len(env.problems)
@@ -229,6 +231,9 @@ def expand(args) -> Dict[str, Any]:
                 e2.apply(ev)
             e2.settle()
             stats["transitions"] = stats.get("transitions", 0) + 1
+            if cfg.post is not None and not e2.dead:
+                for p in cfg.post(cfg, info, label, e2):
+                    e2.problems.append(p)
             for p in e2.problems:
                 problems.append((p, e2.hist[:]))
             if not _own(cfg, e2.problems) and not e2.dead:
